@@ -24,6 +24,7 @@ import time
 
 import vlib
 import scopelib as sl
+import synlib
 import tdgen
 
 THEOREMS = ["C05_block_scopes_end", "C05_locals_do_not_leak", "C05_out_of_scope_partial", "C05_unresolved_reported",
@@ -48,7 +49,8 @@ TRUSTED = [
     "through the real typed accessors (a difference or a bridge unit that does not build is a broken tie): coreast.rs "
     "is therefore a cross-check, not part of the trusted base for Core programs; trusted instead: the translators "
     "tools/translate/{t_tokens,t_lextables,t_unicode,t_lexer,t_grammar,t_grammarcert,t_ast}.py (re-run by this check; tied to the "
-    "code by C01/C02/C04/C15), the hand models of the 8 hand-written ast.rs methods in AstToCore.v, "
+    "code by C01/C02/C04/C15), the hand models of the hand-written ast.rs methods in AstToCore.v (now tied to ast.rs / lib.rs by "
+    "props/AstSource.v: translators t_astmethods, t_libglue; re-checked by this check), "
     "coq/extract/bridge_driver.ml",
     "observer harness/src/bin/idedump.rs, Coq extraction (ExtrOcamlBasic only), OCaml driver coq/extract/scope_driver.ml",
     "generator lib/tdgen.py (its own scope tracking is the oracle), this Python driver",
@@ -153,6 +155,7 @@ def run(ctx):
     fails = vlib.proof_step(ctx, "TG.Props.C05", THEOREMS, ["props/C05.vo"], TRUSTED,
                             translators=sl.BRIDGE_TRANSLATORS + sl.INDEXER_TRANSLATORS + sl.HANDLER_TRANSLATORS)
     sl.source_tie(ctx, fails, handlers=True)
+    synlib.ast_source_step(ctx, fails)     # the hand-written ast.rs accessor methods + lib.rs glue = the bridge's hand versions
     try:
         exe = vlib.build_model("scope")
     except vlib.BuildError as ex:
